@@ -230,6 +230,8 @@ def c10(tier, seed, work):
     res["coverage"]["rule"] += (" Over UDP loopback with the library's own back-off: node busy once or twice, each answered promptly, then the "
                                 "final answer, in and out of a session, per-attempt timeouts 150 and 300 ms (shorter than the back-off pauses): "
                                 "the command must return that answer (three-fold reproduction for a violation).")
+    res = add_hs(res, work, [dict(name="c10-long", family="long", tier=tier, seed=seed)],
+                 "80 (thorough: 400) commands in a row on one session per suite: a valid final response ends each of them.")
     return add_walk(res, work, [dict(name="c10-lun", module="MCGenSensor", cfg_tpl="Gen_Cipher.cfg.tpl", family="lun", tier=tier, seed=seed),
                                 # every command, alone, twice in a row, and on the connection / in the session alternately
                                 dict(name="c10-api", module="MCGenApi", cfg_tpl="Gen_Cipher.cfg.tpl", family="api", tier=tier, seed=seed)],
@@ -350,7 +352,9 @@ def hs_check(pid, tier, seed, work, fam_specs, mc=True, mutants=()):
 def c01(tier, seed, work):
     fams = [dict(name="c01-honest", family="honest", tier=tier, seed=seed),
             dict(name="c01-retry", family="retry", tier=tier, seed=seed),
-            dict(name="c01-rekey", family="rekey", tier=tier, seed=seed)]
+            dict(name="c01-rekey", family="rekey", tier=tier, seed=seed),
+            # 80 (thorough: 400) commands on one session per suite
+            dict(name="c01-long", family="long", tier=tier, seed=seed)]
     if tier != "quick":
         fams.append(dict(name="c01-honest-exact", family="honest", tier="quick", seed=seed + 1, opts={"exact": True}))
         fams.append(dict(name="c01-honest-s2", family="honest", tier="quick", seed=seed + 2))
@@ -707,11 +711,30 @@ def c17(tier, seed, work):
                                   dict(name="c17-hist-n", insess=False, cmds="CmdsAR", maxcalls=2 if tier == "quick" else 3, maxatt=d if tier == "quick" else 2, kinds="KindsSessionless", auth=1, integ=1)],
                       "Histories: every outcome sequence of Console.tla for two (thorough: three) consecutive calls on one connection / session; "
                       "the result and transmissions of each later call must be those the reference model predicts from that call's own replies.")
+    res = add_hs(res, work, [dict(name="c17-long", family="long", tier=tier, seed=seed)],
+                 "80 (thorough: 400) commands in a row on one session per suite: each result is that command's own response.")
     return add_walk(res, work, [dict(name="c17-api", module="MCGenApi", cfg_tpl="Gen_Cipher.cfg.tpl", family="api", tier=tier, seed=seed),
                                 dict(name="c17-cipher", module="MCGenCipher", cfg_tpl="Gen_Cipher.cfg.tpl", family="reuse", tier=tier, seed=seed),
                                 dict(name="c17-sdr-events", module="MCGenSdr", cfg_tpl="Gen_Cipher.cfg.tpl", family="events17", tier=tier, seed=seed)],
                     "Connection level: every command once on one connection / session in table order and in reverse order; the value decoded "
                     "for each command in the reversed history must still agree with the specification (nothing survives from earlier responses).")
+
+
+def add_hs(res, work, hs_specs, note):
+    """Merge handshake-trace families (TraceHandshake) into another check's result."""
+    hs = [F.handshake_family(work, **fs) for fs in hs_specs]
+    require_accepted(hs)
+    extra = []
+    for f in hs:
+        extra += flatten(f)
+    attach_scripts(extra)
+    res["viols"] += extra
+    n = sum(f["scripts"] for f in hs)
+    res["coverage"]["evaluations"] += n
+    res["coverage"]["distinct_nontrivial"] += n
+    res["coverage"]["families"] += fam_cov(hs)
+    res["coverage"]["rule"] += " " + note
+    return res
 
 
 def c17_vec(tier, seed, work):
@@ -835,6 +858,11 @@ def c13(tier, seed, work):
     ov = flatten(odd) + flatten(disc)
     attach_scripts(ov)
     viols += ov
+    hsm = F.handshake_family(work, "c13-hs-mutate", "mutate", tier, seed)
+    require_accepted([hsm])
+    hv = flatten(hsm)
+    attach_scripts(hv)
+    viols += hv
     cons = [F.console_family(work, "c13-nobody-s", True, "CmdsAC", 2, d, "KindsRetry", a, i),
             F.console_family(work, "c13-nobody-n", False, "CmdsCR", 2, d, "KindsRetryNS", 1, 1),
             # refusals (a completion code and nothing else) of commands whose response has a body, then another call on the connection
